@@ -6,6 +6,13 @@ EXTENDS SFReduce
 
 AsSet(s) == {s[i] : i \in 1..Len(s)}
 (* the declarative statement about a recorded set operation *)
+(* SetOpOKAny: the set-algebra part alone (the other operand is a plain array / list of labels, not an index: the statement's  *)
+(* "identical operands keep their order" speaks about two indices)                                                              *)
+SetOpOKAny(kind, a, b, res) ==
+  /\ Unique(res)
+  /\ AsSet(res) = (CASE kind = "union" -> AsSet(a) \cup AsSet(b)
+                     [] kind = "intersection" -> AsSet(a) \cap AsSet(b)
+                     [] kind = "difference" -> AsSet(a) \ AsSet(b))
 SetOpOK(kind, a, b, res) ==
   /\ Unique(res)
   /\ AsSet(res) = (CASE kind = "union" -> AsSet(a) \cup AsSet(b)
